@@ -153,8 +153,8 @@ def main(argv=None):
     rng = random.Random(seed)
     q = tier == "quick"
     rep = R.Report(PROP, tier, seed)
-    ex = list(D.plain_inputs(range(1, 4 if q else 5), range(1, 4 if q else 5)))
-    smp = [D.random_plain_input(rng, rng.randint(4, 5), rng.randint(2, 5)) for _ in range(60 if q else 600)]
+    ex = list(D.plain_inputs(range(1, 5), range(1, 4 if q else 5)))
+    smp = [D.random_plain_input(rng, rng.randint(4, 5), rng.randint(3, 5)) for _ in range(250 if q else 600)]
     big = [D.random_plain_input(rng, rng.randint(6, 8), rng.randint(3, 6)) for _ in range(0 if q else 40)]
     mk = lambda d: {"desc": d, "max_paths": 5000 if q else 30000, "budget_s": 200.0 if q else 900.0}
     res, sk = R.run_sharded(worker, [mk(d) for d in ex], 100 if q else 1500)
@@ -164,7 +164,7 @@ def main(argv=None):
     import superrec2.compute.reconciliation as m1, superrec2.utils.trees as m9
     rep.functions = R.source_digest(m1.reconcile_lca, m1.reconcile_thl, m1._compute_thl_table, m1._decode_thl_table,
                                     m9.LowestCommonAncestor.__call__)
-    rep.bounds = {"exhaustive": f"every input with 1-{3 if q else 4} object leaves x 1-{3 if q else 4} species leaves (plane shapes, every leaf assignment)",
+    rep.bounds = {"exhaustive": f"every input with 1-4 object leaves x 1-{3 if q else 4} species leaves (plane shapes, every leaf assignment)",
                   "sampled": f"{len(smp)} seeded inputs with 4-5 object leaves, 2-5 species leaves" + ("" if q else "; 40 seeded inputs with 6-8 object leaves (oracle enumeration still exhaustive per input)"),
                   "costs": "dup, floss: all non-negative integers; spe: all integers with 0 <= spe <= dup; hgt = infinity.inf (transfers forbidden)"}
     rep.assumptions = ["oracle engine/oracles/recon.py", "z3 linear integer arithmetic"]
